@@ -35,8 +35,20 @@ func Quiet() {
 
 var (
 	portMu     sync.Mutex
-	portsGiven = map[int]bool{}
+	portsGiven = map[int]bool{} // the ports handed out most recently (a window, see remember)
+	portRing   []int
 )
+
+// remember keeps the last 256 ports: long enough that two fixtures of one test never share a
+// port, short enough that a test which allocates thousands of ports does not run out.
+func remember(p int) {
+	portsGiven[p] = true
+	portRing = append(portRing, p)
+	if len(portRing) > 256 {
+		delete(portsGiven, portRing[0])
+		portRing = portRing[1:]
+	}
+}
 
 // FreePort returns a TCP port on 127.0.0.1 that was free a moment ago and that this process
 // has not handed out before (the kernel likes to hand the port just released out again).
@@ -59,7 +71,7 @@ func FreePort() int {
 			held = append(held, ln) // keep it busy so that the next try gets another one
 			continue
 		}
-		portsGiven[p] = true
+		remember(p)
 		ln.Close()
 		return p
 	}
@@ -85,7 +97,7 @@ func ListenFresh() net.Listener {
 			held = append(held, ln)
 			continue
 		}
-		portsGiven[p] = true
+		remember(p)
 		return ln
 	}
 }
